@@ -10,6 +10,8 @@ is representably non-zero must change.  Read-only calls (losses, gradients, acti
 """
 
 import itertools
+
+from vlib import c05_loops
 from collections import namedtuple
 from functools import partial
 
@@ -1106,6 +1108,10 @@ def cases_for(fam, N, tier, seed):
 
 
 def items(tier, seed):
+    return _items(tier, seed) + c05_loops.items(tier, seed)
+
+
+def _items(tier, seed):
     s0 = 3 * seed
     pss = [[s0, 1.0], [s0 + 1, 1.0], [s0, 0.0]]
     Ns = [2, 3]
@@ -1137,6 +1143,8 @@ def items(tier, seed):
 
 
 def work(item, col):
+    if str(item.get("kind", "")).startswith("loop"):
+        return c05_loops.work(item, col)
     fam, N, optk, hid, ps, mode = item["fam"], item["N"], item["opt"], item["hid"], item["ps"], item["mode"]
     build = FAMS[fam]
     _PROTO.clear()
